@@ -28,7 +28,7 @@ Local Notation prescan_loop := (prescan_loop is_word_char to_lower simple_fold c
 Variable mco : bool.
 Variable J : cstate -> Prop.
 Hypothesis J_auto : forall c, J c -> J (note_auto c).
-Hypothesis J_slot : forall c i, J c -> 0 <= i <= 2147483647 -> J (note_slot i c).
+Hypothesis J_slot : mco = false -> forall c i, J c -> 0 <= i <= 2147483647 -> J (note_slot i c).
 Hypothesis J_name : forall o s c c', J c -> note_name_pr mco o s c = POk c' -> J c'.
 
 Lemma prescan_named_gen st1 p3 st' q : J (cs_c st1) -> prescan_named mco st1 p3 = POk (st', q) -> J (cs_c st').
@@ -52,7 +52,7 @@ Proof.
     destruct mco eqn:Em.
     + destruct (note_name_pr true (cs_o st1) (itoa dec) (cs_c st1)) as [c'| | | |] eqn:N; cbn [pbind] in E; try discriminate.
       inversion E; subst. cbn. eapply J_name; [exact Hc | exact N].
-    + inversion E; subst. cbn. apply J_slot; [exact Hc | lia].
+    + inversion E; subst. cbn. apply J_slot; [first [exact Em | reflexivity | assumption] | exact Hc | lia].
   - destruct (scan_word is_word_char (ch2 :: p4)) as [nm q0].
     destruct (note_name_pr mco (cs_o st1) nm (cs_c st1)) as [c'| | | |] eqn:N; cbn [pbind] in E; try discriminate.
     inversion E; subst. cbn. eapply J_name; [exact Hc | exact N].
@@ -322,7 +322,7 @@ Lemma prescan_loop_cw mco fuel st p st' : cw (cs_c st) -> prescan_loop fuel mco 
 Proof.
   apply (prescan_loop_gen is_word_char to_lower simple_fold cat_in cat_name mco cw).
   - apply note_auto_cw.
-  - intros c i W Hi. apply note_slot_cw; [exact W | lia].
+  - intros _ c i W Hi. apply note_slot_cw; [exact W | lia].
   - intros o s c c'. apply note_name_pr_cw.
 Qed.
 
